@@ -16,7 +16,29 @@ def c18_key(aid, events, outs):
     return "c18:%s:%s" % (aid, ",".join("%s=%s" % (k, v) for k, v in sorted(m.items()) if k.startswith("shortcut")))
 
 
+def c02_key(aid, events, outs):
+    o = {x["key"]: x["val"] for x in outs}
+    if aid.endswith("untagged-only-if-unambiguous"):
+        return "c02:union-untagged-but-ambiguous:%s" % o.get("overlap", "?")
+    m = {e["name"]: e["value"] for e in events}
+    return "c02:%s:%s" % (aid, ",".join(v for k, v in sorted(m.items()) if "prim" in k or "casekind" in k))
+
+
 PARTS = {
+    "C02": [
+        (G, "gosym_part", dict(name="c02_union_tagging", entry="internal/zzverif.C02Union", args_quick=(2, 0, 0), args_thorough=(3, 1, 0),
+                               extra_thorough=("-max-paths", "400000"), key_fn=c02_key,
+                               required_sites=("cpp-python-agree", "python-untagged-only-if-unambiguous", "python-tagged-only-if-ambiguous",
+                                               "cpp-untagged-only-if-unambiguous", "cpp-tagged-only-if-ambiguous"),
+                               desc="ndjsoncommon.GetJsonDataType + python/ndjson.typeConverter + cpp/ndjson.writeUnionConverters on a symbolic union "
+                                    "(args: number of cases, leading null): a union is written untagged iff the documented JSON kinds of its cases are pairwise disjoint, and both generators agree",
+                               assumptions=["JSON kind table transcribed from docs/reference/ndjson.md (harness specKinds)",
+                                            "union cases range over: all primitives, enum, flags, record, alias of 4 primitives, vector, fixed vector, arrays (dynamic / rank-only / fixed / rank 0), maps with string or int key"])),
+        (G, "gosym_part", dict(name="c02_union_tagging_3", entry="internal/zzverif.C02Union", args_quick=(3, 0, 1), args_thorough=(3, 1, 1), key_fn=c02_key,
+                               required_sites=("cpp-python-agree", "python-untagged-only-if-unambiguous", "python-tagged-only-if-ambiguous"),
+                               desc="same obligations on 3-case unions over a reduced case vocabulary (4 primitives, record, vector, enum)",
+                               assumptions=["JSON kind table transcribed from docs/reference/ndjson.md (harness specKinds)"])),
+    ],
     "C18": [
         (G, "gosym_part", dict(name="c18_graph", entry="pkg/packaging.VerifC18Graph", args_quick=(3, 2), args_thorough=(3, 3),
                                required_sites=("terminates-without-panic", "cycle-or-conflict-rejected", "acyclic-accepted", "each-reachable-once"),
@@ -75,6 +97,10 @@ NOTES = ("Every claim is bounded: 'holds' means unsat within the stated bound. E
 NOT_APPLICABLE = {}
 
 CLAIMS = {
+    "C02": dict(text="Bounded symbolic execution (gosym) of the union tag-or-not decision of both NDJSON generators on symbolic unions (2 cases quick, 3 + null thorough): "
+                     "untagged iff the documented JSON kinds are pairwise disjoint; C++ and Python agree. Two genuine defects found this way were repaired (fix: commits).",
+                note="Decides the generator-side mapping only; the _ndjson.py converters themselves are checked by the pysym part when registered; the C++ NDJSON runtime "
+                     "(nlohmann-json absent) and JSON text formatting are outside. Kind table trusted."),
     "C18": dict(text="Bounded symbolic execution (gosym) of LoadPackage/collectPackages/GetAllReferencedPackages over all import multigraphs on 3 packages "
                      "(out-degree <= 2, symbolic namespaces), all DAGs (+1 arbitrary edge) on 4 packages in both list orders, and chains at the real depth limit "
                      "with a shortcut import: cycles, namespace conflicts and over-deep chains are errors; otherwise every reachable package is loaded once and every import resolved.",
